@@ -27,6 +27,8 @@ pub struct Entry {
     pub hints: &'static [(usize, usize, &'static [u64])],
     pub arg_hints: &'static [(usize, &'static [u64])],
     pub read: fn(&[u8], &[u64]) -> String,
+    /// `Offset32(off).resolve[_with_args]::<T>(data)`
+    pub resolve: fn(&[u8], u32, &[u64]) -> String,
     pub getters: fn(&[u8], &[u64]),
 }
 
@@ -262,6 +264,32 @@ pub fn run(cfg: &Config, s: &mut Session) {
                     }
                 }
             }
+        }
+        // offset resolution: the same tables reached through an offset from a parent's data
+        let n_res = purity.len().min(if cfg.thorough() { 400 } else { 60 });
+        for k in 0..n_res {
+            let (b, a, _) = &purity[(k * 7919) % purity.len()];
+            let pad = match k % 4 { 0 => 1usize, 1 => 2, 2 => 5, _ => 0 };
+            let mut parent = vec![0x5Au8; pad];
+            parent.extend_from_slice(b);
+            let len = parent.len() as u64;
+            let off = match rng.below(8) {
+                0 => 0u32,
+                1 => len as u32,
+                2 => len as u32 + 1,
+                3 => u32::MAX,
+                4 => rng.below(len + 2) as u32,
+                _ => pad as u32,
+            };
+            let mut req = format!("resolve {} {} {}", e.name, hex(&parent), off);
+            for x in a {
+                req.push(' ');
+                req.push_str(&x.to_string());
+            }
+            let r = catch(|| (e.resolve)(&parent, off, a));
+            s.oracle("shapes.resolve.no-panic", r.is_ok(), || req.clone(), || format!("{:?}", r.as_ref().err()));
+            s.count(&format!("shapes.resolve:{}", match r.as_deref() { Ok("null") => "null", Ok(o) if o.starts_with("ok") => "ok", Ok(_) => "err", Err(_) => "panic" }));
+            s.case("shapes.resolve", req, r.unwrap_or_else(|_| "panic".into()));
         }
         // purity: the same inputs from an odd-offset copy, on another thread
         let read = e.read;
